@@ -61,6 +61,19 @@
 (*           the library's scale) and the deviation's value where it       *)
 (*           differs                                                       *)
 (*   REJ     the rejection table                                           *)
+(* Mode "history" (Layer-B style): the average is a function of the        *)
+(* tensors the passed object holds AT CALL TIME.  A small machine keeps the *)
+(* library currently held by ONE shared StiffnessTensors instance (per      *)
+(* phase); actions SetTensor(phase, library) and Average(instance, case)    *)
+(* with instance = the shared one, the import-time default argument (never  *)
+(* modified: always the built-ins) or a fresh pre-customised object.  TLC   *)
+(* explores every action sequence up to HistDepth plus a few long scripts   *)
+(* (built-in -> customA -> customB -> built-in), checks that the state      *)
+(* variable agrees with the logged assignments, that every expected value   *)
+(* is the average under the library current at that step, that an aligned   *)
+(* grain returns the CURRENT tensor and that the default instance never     *)
+(* changes, and emits each behaviour (HIST) with the exact expected value   *)
+(* of every call for replay on one real, mutated object.                    *)
 (* Mode "measures": the law for the floating-point measures recorded by    *)
 (* the harness (integers in 1e-12 relative units) is evaluated here.       *)
 (*                                                                         *)
@@ -73,7 +86,7 @@
 EXTENDS Mat3, SequencesExt, Json, IOUtils
 
 CONSTANTS Tier,     \* "quick" | "thorough" : size of the enumerated domain
-          Mode      \* "generate" | "negative" | "measures"
+          Mode      \* "generate" | "negative" | "measures" | "history"
 VARIABLES c,        \* the case / lemma instance / table entry (never changes)
           res       \* [done |-> FALSE] until the one-shot Next has evaluated the case
 vars == <<c, res>>
@@ -156,11 +169,12 @@ Lib == << [name |-> "builtin", scale |-> 100, rots |-> "octa", ol |-> BuiltinOl,
           [name |-> "customB", scale |-> 2, rots |-> "small", ol |-> CustBOl, en |-> CustBEn] >>
 NLib == Len(Lib)
 NR(l) == IF Lib[l].rots = "octa" THEN 24 ELSE 40
+SingleCrystalInt(l, ph) == IF ph = "olivine" THEN Lib[l].ol ELSE Lib[l].en
 LibTensors(l) == [olivine |-> QM6(Lib[l].ol), enstatite |-> QM6(Lib[l].en)]
 
 \* table of pre-rotated single-crystal tensors, evaluated once at start-up (TLC caches constants)
 MemoKeys == {k \in (1..NLib) \X (1..2) \X (1..40) : k[3] <= NR(k[1])}
-RotC == IF Mode = "generate"
+RotC == IF Mode \in {"generate", "history"}
         THEN TLCEval([k \in MemoKeys |-> Rotated(SingleCrystal(LibTensors(k[1]), Phases[k[2]]), RotSeq[k[3]])])
         ELSE <<>>
 \* case minerals carry rotation INDICES; Pick(ph) = index of the phase whose tensor is used
@@ -261,6 +275,57 @@ Required(e) == {"symmetry", "corotation", "aligned"}
                \cup (IF e.norm THEN {"moduliK", "moduliG"} ELSE {})
                \cup (IF e.two THEN {"phaseOrder", "mineralOrder"} ELSE {})
 
+\* ------------------------------------------------------------------ history: tensors are read at call time
+HistDepth == IF Thorough THEN 4 ELSE 3
+Builtins == [olivine |-> 1, enstatite |-> 1]                \* what a new StiffnessTensors() / the default argument holds
+\* real (GPa) average of a case whose minerals take their tensor from library tl[phase]; octahedral textures only
+HistAverage(cs, tl) ==
+  AverageWith(LAMBDA m, s, g : TScale(<<1, Lib[tl[cs.mins[m].phase]].scale>>,
+                                      RotC[<<tl[cs.mins[m].phase], Ordinal(cs.mins[m].phase) + 1, cs.mins[m].ori[s][g]>>]),
+              cs.mins, cs.asm, cs.phi)
+RealTensor(l, ph) == M6Eval([i \in I6 |-> [j \in I6 |-> QNorm(SingleCrystalInt(l, ph)[i][j], Lib[l].scale)]])
+HistCases == <<
+  [asm |-> <<"olivine">>, order |-> <<"olivine">>, phi |-> <<QOne>>,
+   mins |-> <<[phase |-> "olivine", n |-> 1, ori |-> << <<IdIdx>> >>, vol |-> << <<QOne>> >>]>>],
+  [asm |-> <<"enstatite">>, order |-> <<"enstatite">>, phi |-> <<QOne>>,
+   mins |-> <<[phase |-> "enstatite", n |-> 1, ori |-> << <<IdIdx>> >>, vol |-> << <<QOne>> >>]>>],
+  [asm |-> EnOl, order |-> OlEn, phi |-> <<<<1, 4>>, <<3, 4>>>>,
+   mins |-> <<[phase |-> "olivine", n |-> 2, ori |-> << <<3, 10>>, <<5, 17>> >>,
+               vol |-> << <<QHalf, QHalf>>, <<<<1, 4>>, <<3, 4>>>> >>],
+              [phase |-> "enstatite", n |-> 2, ori |-> << <<14, 21>>, <<8, 2>> >>,
+               vol |-> << <<<<1, 4>>, <<3, 4>>>>, <<QHalf, QHalf>> >>]>>] >>
+AlignedHistCase(k) == k \in {1, 2}
+SetStep(ph, l) == [a |-> "set", inst |-> "shared", phase |-> ph, lib |-> l, k |-> 0]
+AvgStep(inst, l, k) == [a |-> "avg", inst |-> inst, phase |-> "-", lib |-> l, k |-> k]
+HistSteps == {SetStep(ph, l) : ph \in {"olivine", "enstatite"}, l \in 1..NLib}
+             \cup {AvgStep("shared", 0, k) : k \in 1..3}
+             \cup {AvgStep("default", 0, k) : k \in {1, 3}}
+             \cup {AvgStep("fresh", 2, 3)}
+\* the library an instance holds when the call is made
+TensorsOf(cur, st) == CASE st.inst = "shared" -> cur
+                        [] st.inst = "default" -> Builtins
+                        [] OTHER -> [olivine |-> st.lib, enstatite |-> st.lib]
+Apply(h, st) ==
+  IF st.a = "set"
+  THEN [h EXCEPT !.cur[st.phase] = st.lib,
+                 !.log = Append(@, [a |-> "set", inst |-> st.inst, phase |-> st.phase, lib |-> st.lib, k |-> 0, avg |-> <<>>])]
+  ELSE [h EXCEPT !.log = Append(@, [a |-> "avg", inst |-> st.inst, phase |-> st.phase, lib |-> st.lib, k |-> st.k,
+                                    avg |-> HistAverage(HistCases[st.k], TensorsOf(h.cur, st))])]
+HistEmpty == [kind |-> "hist", script |-> 0, cur |-> Builtins, log |-> <<>>]
+Scripts == <<
+  <<AvgStep("shared", 0, 1), SetStep("olivine", 2), AvgStep("shared", 0, 1), SetStep("olivine", 3), AvgStep("shared", 0, 1),
+    SetStep("olivine", 1), AvgStep("shared", 0, 1)>>,
+  <<AvgStep("shared", 0, 3), SetStep("enstatite", 2), SetStep("olivine", 2), AvgStep("shared", 0, 3), AvgStep("default", 0, 3),
+    SetStep("enstatite", 3), AvgStep("shared", 0, 3), AvgStep("default", 0, 3), SetStep("olivine", 1), SetStep("enstatite", 1),
+    AvgStep("shared", 0, 3)>>,
+  <<AvgStep("default", 0, 1), AvgStep("fresh", 2, 3), AvgStep("default", 0, 1), AvgStep("shared", 0, 2), SetStep("enstatite", 3),
+    AvgStep("shared", 0, 2), AvgStep("default", 0, 3), AvgStep("fresh", 2, 3), SetStep("enstatite", 2), AvgStep("shared", 0, 3)>> >>
+ScriptState(i) == [FoldLeft(Apply, HistEmpty, Scripts[i]) EXCEPT !.script = i]
+\* the library of phase ph according to the LOG alone: the last assignment before position n, else the built-ins
+LibAt(log, n, ph) == LET S == {i \in 1..(n - 1) : log[i].a = "set" /\ log[i].phase = ph}
+                     IN IF S = {} THEN 1 ELSE log[Max(S)].lib
+LoggedTensors(log, n) == TensorsOf([olivine |-> LibAt(log, n, "olivine"), enstatite |-> LibAt(log, n, "enstatite")], log[n])
+
 \* ------------------------------------------------------------------ behaviour: one-shot evaluation
 Init == /\ \/ Mode = "generate" /\ \/ IsGridCase(c)
                                    \/ c \in AlignedCases
@@ -270,7 +335,8 @@ Init == /\ \/ Mode = "generate" /\ \/ IsGridCase(c)
                                    \/ c = [kind |-> "tables"]
            \/ Mode = "negative" /\ c \in BasisStates
            \/ Mode = "measures" /\ c \in {[kind |-> "measure", i |-> k] : k \in 1..Len(TraceLog)}
-        /\ res = [done |-> FALSE]
+           \/ Mode = "history" /\ (c = HistEmpty \/ \E i \in DOMAIN Scripts : c = ScriptState(i))
+        /\ res = [done |-> (Mode = "history")]
 
 Evaluate(x) ==
   CASE x.kind = "case" -> [done |-> TRUE, avg |-> ById(x), dev |-> ByPos(x)]
@@ -285,7 +351,11 @@ Evaluate(x) ==
     [] x.kind = "basis" -> [done |-> TRUE, rot |-> M6Eval(ToVoigt(TRotate(ToTensor(BasisMat6(x.b)), x.R)))]
     [] x.kind = "reject" -> [done |-> TRUE, outcome |-> Outcome(x.shapes), clause |-> RejectClause(x.shapes)]
     [] OTHER -> [done |-> TRUE]
-Next == ~res.done /\ res' = Evaluate(c) /\ UNCHANGED c
+HistNext == /\ Mode = "history" /\ c.kind = "hist" /\ c.script = 0 /\ Len(c.log) < HistDepth
+            /\ \E st \in HistSteps : c' = Apply(c, st)
+            /\ UNCHANGED res
+Next == \/ ~res.done /\ res' = Evaluate(c) /\ UNCHANGED c
+        \/ HistNext
 Spec == Init /\ [][Next]_vars
 
 \* ------------------------------------------------------------------ lemmas
@@ -312,6 +382,24 @@ RejectionSane == Done("reject") =>
    (res.outcome = "ok" <=> \A m \in DOMAIN c.shapes : /\ c.shapes[m].n = c.shapes[1].n
                                                       /\ c.shapes[m].nOri = c.shapes[1].nOri
                                                       /\ c.shapes[m].nFrac = c.shapes[m].nOri)
+
+\* ---- history lemmas (the log is append-only, so checking the newest entry in every state checks all entries)
+IsHist == Mode = "history" /\ c.kind = "hist"
+LastIsAvg == Len(c.log) > 0 /\ c.log[Len(c.log)].a = "avg"
+HistCurrentIsLastSet == IsHist => \A ph \in {"olivine", "enstatite"} : c.cur[ph] = LibAt(c.log, Len(c.log) + 1, ph)
+HistCallTime == (IsHist /\ LastIsAvg) =>
+   LET n == Len(c.log) IN c.log[n].avg = HistAverage(HistCases[c.log[n].k], LoggedTensors(c.log, n))
+HistAlignedReturnsCurrent == (IsHist /\ LastIsAvg /\ AlignedHistCase(c.log[Len(c.log)].k)) =>
+   LET n == Len(c.log)
+       ph == HistCases[c.log[n].k].asm[1]
+   IN c.log[n].avg = <<RealTensor(LoggedTensors(c.log, n)[ph], ph)>>
+HistDefaultFixed == (IsHist /\ LastIsAvg /\ c.log[Len(c.log)].inst = "default") =>
+   c.log[Len(c.log)].avg = HistAverage(HistCases[c.log[Len(c.log)].k], Builtins)
+HistSymmetric == (IsHist /\ LastIsAvg) => \A s \in DOMAIN c.log[Len(c.log)].avg : IsSym6(c.log[Len(c.log)].avg[s])
+HistTables == [cases |-> HistCases, depth |-> HistDepth, scripts |-> Len(Scripts)]
+HistEmit == IsHist =>
+   /\ (c.log = <<>>) => PrintT(<<"HTABLES", ToJson(HistTables)>>)
+   /\ (LastIsAvg /\ (c.script > 0 \/ Len(c.log) = HistDepth)) => PrintT(<<"HIST", ToJson([script |-> c.script, log |-> c.log])>>)
 
 \* ------------------------------------------------------------------ emission and verdicts
 Emit ==
